@@ -135,3 +135,70 @@ Proof.
   - assert (ln (wj * y) <= ln (wj * x)) by (apply ln_le; nra). lra.
   - assert (ln (wj * x) <= ln (wj * y)) by (apply ln_le; nra). lra.
 Qed.
+
+(* ---- EntropyWeighter: 1 - H(p) / ln n is non-negative (Gibbs' inequality), hence the weights are ------ *)
+Fixpoint plogp (l : list R) : R := match l with [] => 0 | p :: t => p * ln p + plogp t end.
+
+Lemma ln_le_minus_1 y : 0 < y -> ln y <= y - 1.
+Proof. intros Hy. pose proof (exp_ineq1_le (ln y)) as H. rewrite exp_ln in H by exact Hy. lra. Qed.
+
+(* term by term: p ln p >= p ln c + p - c for every c > 0 (with 0 ln 0 = 0, as scipy.stats.entropy) *)
+Lemma plogp_term c p : 0 < c -> 0 <= p -> p * ln c + p - c <= p * ln p.
+Proof.
+  intros Hc [Hp|<-]; [|lra].
+  assert (Q : 0 < c / p) by (apply Rdiv_lt_0_compat; assumption).
+  pose proof (ln_le_minus_1 (c / p) Q) as H.
+  unfold Rdiv in H. rewrite ln_mult in H by (try assumption; apply Rinv_0_lt_compat; exact Hp).
+  rewrite ln_Rinv in H by exact Hp.
+  assert (E : p * (c * / p - 1) = c - p) by (field; lra).
+  assert (p * (ln c + - ln p) <= p * (c * / p - 1)) by (apply Rmult_le_compat_l; lra).
+  lra.
+Qed.
+
+Lemma plogp_lower c l : 0 < c -> Forall (fun p => 0 <= p) l ->
+  ln c * rsum l + rsum l - c * INR (length l) <= plogp l.
+Proof.
+  intros Hc F. induction F as [|p t Hp _ IH]; [simpl; lra|].
+  change (plogp (p :: t)) with (p * ln p + plogp t). change (rsum (p :: t)) with (p + rsum t).
+  change (length (p :: t)) with (S (length t)). rewrite S_INR.
+  pose proof (plogp_term c p Hc Hp). lra.
+Qed.
+
+(* the Shannon entropy of a probability vector of length n is at most ln n *)
+Theorem entropy_le_ln_n l :
+  l <> [] -> Forall (fun p => 0 <= p) l -> rsum l = 1 -> - plogp l <= ln (INR (length l)).
+Proof.
+  intros Hne F S1.
+  assert (Hn : 0 < INR (length l)) by (apply lt_0_INR; destruct l; [congruence|simpl; apply Nat.lt_0_succ]).
+  pose proof (plogp_lower (/ INR (length l)) l (Rinv_0_lt_compat _ Hn) F) as H.
+  rewrite S1, ln_Rinv in H by exact Hn.
+  rewrite Rinv_l in H by lra. lra.
+Qed.
+
+(* so each criterion's diversity 1 - H / ln n is in [0, 1] for n >= 2 alternatives *)
+Theorem entropy_diversity_bounds l :
+  (2 <= length l)%nat -> Forall (fun p => 0 <= p) l -> Forall (fun p => p <= 1) l -> rsum l = 1 ->
+  0 <= 1 + plogp l / ln (INR (length l)) <= 1.
+Proof.
+  intros Hn F F1 S1.
+  assert (Hne : l <> []) by (destruct l; [simpl in Hn; inversion Hn|discriminate]).
+  assert (L : 0 < ln (INR (length l))).
+  { rewrite <- ln_1. apply ln_increasing; [lra|]. change 1 with (INR 1). apply lt_INR. exact Hn. }
+  pose proof (entropy_le_ln_n l Hne F S1) as E.
+  assert (NP : plogp l <= 0).
+  { clear -F F1. induction F as [|p t Hp _ IH]; [simpl; lra|]. inversion F1 as [|? ? Hp1 Ft]; subst.
+    change (plogp (p :: t)) with (p * ln p + plogp t). specialize (IH Ft).
+    assert (p * ln p <= 0).
+    { destruct Hp as [Hp|<-]; [|lra].
+      assert (ln p <= 0) by (rewrite <- ln_1; destruct Hp1 as [Hlt| ->]; [left; apply ln_increasing; assumption|lra]).
+      nra. }
+    lra. }
+  split.
+  - apply (Rmult_le_reg_r (ln (INR (length l)))); [exact L|].
+    replace ((1 + plogp l / ln (INR (length l))) * ln (INR (length l))) with (ln (INR (length l)) + plogp l) by (field; lra).
+    lra.
+  - assert (plogp l / ln (INR (length l)) <= 0).
+    { unfold Rdiv. replace 0 with (0 * / ln (INR (length l))) by ring.
+      apply Rmult_le_compat_r; [left; apply Rinv_0_lt_compat; exact L|exact NP]. }
+    lra.
+Qed.
